@@ -46,6 +46,13 @@ Fixpoint nodup_strings (l : list string) : bool :=
 Definition all_non_empty_and_unique (l : list string) : bool :=
   forallb (fun x => negb (String.eqb x "")) l && nodup_strings l.
 
+(* (since the fix: commit for ids trimmed to numbers) a trimmed id must not start with a digit *)
+Definition starts_with_digit (s : string) : bool :=
+  match s with
+  | String c _ => let n := Ascii.nat_of_ascii c in Nat.leb 48 n && Nat.leb n 57
+  | EmptyString => false
+  end.
+
 Definition trim_common_affixes (ids : list string) : list string :=
   match ids with
   | [] | [_] => ids
@@ -61,7 +68,7 @@ Definition trim_common_affixes (ids : list string) : list string :=
           let (p, s) := shrink (p0 + s0) p0 s0 min_len in
           if Nat.eqb p 0 && Nat.eqb s 0 then ids else
           let simplified := map (fun sg => extract_middle sg p s) segs in
-          if all_non_empty_and_unique simplified then simplified else ids
+          if all_non_empty_and_unique simplified && forallb (fun x => negb (starts_with_digit x)) simplified then simplified else ids
       end
   end.
 
